@@ -236,15 +236,27 @@ func (x *runner) finish() {
 // batch generates and runs n inputs of one (driver, system).
 func (x *runner) batch(d *driver, sys, kind string, seed int64, n int) {
 	r := rand.New(rand.NewSource(seed))
-	switch kind {
-	case "long":
-		// n is the size cap of the tier; below 10^6 the generic shapes are
-		// subsampled (a third per batch, chosen by the batch seed).
+	switch {
+	case strings.HasPrefix(kind, "long"):
+		// kind is long:<i>:<k>: chunk i of k of the long list of this
+		// (driver, system); all chunks share the seed. n is the size cap of
+		// the tier; below 10^6 the generic shapes are subsampled (a third,
+		// chosen by the seed).
+		ci, ck := 0, 1
+		fmt.Sscanf(kind, "long:%d:%d", &ci, &ck)
+		if ck < 1 {
+			ck = 1
+		}
+		idx := 0
 		for _, ls := range d.longList(sys) {
 			if ls.N > n {
 				continue
 			}
 			if _, specific := d.long[ls.Shape]; !specific && n < 1000000 && r.Intn(3) != 0 {
+				continue
+			}
+			idx++
+			if idx%ck != ci {
 				continue
 			}
 			x.feature("source:long")
